@@ -766,3 +766,29 @@ func TestD37_BSIAddToItself(t *testing.T) {
 		t.Errorf("BitSliceIndexing: column 2 = %d, want 10", v)
 	}
 }
+
+// #38 C10: FrozenView of a footer that announces 2^32 bytes of payload and carries none.
+// Shows the defect only when run with GOARCH=386 (int of 32 bits) on the unrepaired tree.
+func TestD38_FrozenViewTotalsOverflowInt(t *testing.T) {
+	const n = 32768
+	buf := make([]byte, 0, 5*n+4)
+	for i := 0; i < n; i++ { // keys
+		buf = append(buf, byte(i), byte(i>>8))
+	}
+	for i := 0; i < n; i++ { // counts: cardinality-1 = 65535
+		buf = append(buf, 0xFF, 0xFF)
+	}
+	for i := 0; i < n; i++ { // type code 2 = array container
+		buf = append(buf, 2)
+	}
+	h := uint32(13766 | n<<15)
+	buf = append(buf, byte(h), byte(h>>8), byte(h>>16), byte(h>>24))
+	defer func() {
+		if r := recover(); r != nil {
+			t.Fatalf("FrozenView panicked instead of returning an error: %v", r)
+		}
+	}()
+	if err := roaring.New().FrozenView(buf); err == nil {
+		t.Fatal("FrozenView accepted a footer whose payload is missing")
+	}
+}
